@@ -55,7 +55,8 @@ class Run:
         open(os.path.join(hb, "go.mod"), "w").write(tmpl)
         shutil.copy(os.path.join(REPO, "go.sum"), hb)
         env = dict(os.environ, **GOENV)
-        p = subprocess.run(["go", "build", "-tags", "verif", "-o", os.path.join(hb, "drv"), "."], cwd=hb, env=env,
+        cover = ["-cover", "-coverpkg=github.com/brocaar/lorawan/..."] if os.environ.get("VERIF_COVER") else []
+        p = subprocess.run(["go", "build", "-tags", "verif"] + cover + ["-o", os.path.join(hb, "drv"), "."], cwd=hb, env=env,
                            stdout=subprocess.PIPE, stderr=subprocess.STDOUT, text=True)
         if p.returncode != 0:
             raise MachineryError("harness build failed (does /repo still compile?):\n" + p.stdout[-3000:])
@@ -109,7 +110,7 @@ class Run:
             cmd += ["--cases", cases]
         try:
             p = subprocess.run(cmd, stdout=subprocess.PIPE, stderr=subprocess.STDOUT, text=True, timeout=timeout,
-                               env=dict(os.environ, **(extra_env or {})))
+                               env=dict(os.environ, **dict(extra_env or {}, **({"GOCOVERDIR": os.environ["VERIF_COVER"]} if os.environ.get("VERIF_COVER") else {}))))
         except subprocess.TimeoutExpired:
             raise MachineryError("driver %s/%s timed out" % (family, mode))
         if p.returncode != 0:
